@@ -940,6 +940,14 @@ func (fc *FnCtx) transCall(env *Env, e *CCall) (Val, types.Type) {
 			}
 			i, _ := argT(2)
 			return tb.App(atf, "Str", x, i), types.Typ[types.String]
+		case "calledAfter":
+			// calledAfter("X", "Y"): a call of X was executed after a call of Y on this path
+			sx, ok1 := e.Args[0].(*CStr)
+			sy, ok2 := e.Args[1].(*CStr)
+			if !ok1 || !ok2 {
+				fc.tfail("calledAfter needs two string literals")
+			}
+			return fc.calledAfterFlag(env.st, sx.Val, sy.Val), boolT
 		case "called":
 			// called("NAME"): a call to NAME has been executed earlier on this path of the function
 			s, ok := e.Args[0].(*CStr)
